@@ -71,6 +71,8 @@ type World struct {
 	// MetaSeed (non-zero): the input files get drawn modification times (some newer than -o, some in the
 	// future), drawn permission bits and are created in a drawn order: same contents, other metadata
 	MetaSeed uint64 `json:"meta_seed,omitempty"`
+	// ChainDeep: see OutKind "symlink-chain"
+	ChainDeep bool `json:"chain_deep,omitempty"`
 	// Peers: further build commands that run concurrently with this one, as processes of their own, in
 	// the same directory tree (make -j, two terminals, a file watcher): each has its own patterns, -o,
 	// flags and seeds; the files are those of this world. SchedSeed decides the interleaving of their file
@@ -525,7 +527,7 @@ func execPhase(t Target, w *World, top string, phase int) *Result {
 		switch w.OutKind {
 		case "isdir":
 			must(os.MkdirAll(w.Out, 0755))
-		case "file", "symlink":
+		case "file", "symlink", "symlink-chain":
 			must(os.MkdirAll(filepath.Dir(w.Out), 0755))
 		}
 		switch w.OutKind {
@@ -539,7 +541,23 @@ func execPhase(t Target, w *World, top string, phase int) *Result {
 		case "symlink-self":
 			must(os.Symlink(filepath.Base(w.Out), w.Out))
 		}
-		if w.OutKind == "symlink" {
+		if w.OutKind == "symlink-chain" {
+			must(os.MkdirAll(filepath.Dir(w.Out), 0755))
+			must(os.MkdirAll("linkstore/deep", 0755))
+			// the hops have relative targets, each relative to the directory of its own link:
+			//   -o -> ../linkstore/current -> [deep/]real.go         (ChainDeep: the last file sits one directory further down)
+			real := "real.go"
+			if w.ChainDeep {
+				real = "deep/real.go"
+			}
+			if w.PreOut != nil {
+				must(os.WriteFile("linkstore/"+real, []byte(w.PreOut.Content), os.FileMode(w.PreOut.Mode)))
+			}
+			must(os.Symlink(real, "linkstore/current"))
+			rel, err := filepath.Rel(filepath.Dir(w.Out), "linkstore/current")
+			must(err)
+			must(os.Symlink(rel, w.Out))
+		} else if w.OutKind == "symlink" {
 			// -o is a symbolic link to an existing regular file
 			must(os.MkdirAll(filepath.Dir(w.Out), 0755))
 			must(os.WriteFile("link_target.go", []byte(w.PreOut.Content), os.FileMode(w.PreOut.Mode)))
@@ -675,7 +693,7 @@ func execPhase(t Target, w *World, top string, phase int) *Result {
 		if strings.HasSuffix(p, "/") {
 			continue // directories created on the way are not judged
 		}
-		if !beforeSet[p] && filepath.Clean(p) != filepath.Clean(w.Out) && p != "link_target.go" && p != "out/real_behind_link.go" {
+		if !beforeSet[p] && filepath.Clean(p) != filepath.Clean(w.Out) && p != "link_target.go" && p != "out/real_behind_link.go" && !strings.HasPrefix(p, "linkstore/") {
 			res.Stray = append(res.Stray, p)
 		}
 	}
